@@ -10,18 +10,51 @@ def pattern(seed, n):
     return [(seed * 31 + j * 7 + 1) % 256 for j in range(n)]
 
 
+# the pool's second build variant: red zones + user poisoning (the flags C01 uses for its second daemon build)
+POISON = ["-DMHD_ASAN_POISON_ACTIVE=1", "-DHAVE_SANITIZER_ASAN_INTERFACE_H=1", "-DFUNC_ATTR_NOSANITIZE_WORKS=1",
+          "-DHAVE___ASAN_REGION_IS_POISONED=1", "-DHAVE___ASAN_ADDRESS_IS_POISONED=1"]
+POISON_PROBE = ["-DMHD_ASAN_POISON_ACTIVE=1", "-DMHD_ASAN_ACTIVE=1", "-DHAVE_SANITIZER_ASAN_INTERFACE_H=1", "-DFUNC_ATTR_NOSANITIZE_WORKS=1"]
+
+
+def gen_values():
+    """(red zone of the poison build, sizeWrapByCompare) as regenerated into Gen/Pool.lean"""
+    import re
+    t = open(os.path.join(extract.GEN, "Pool.lean")).read()
+    rz = int(re.search(r"def redZoneAsan : Nat := (\d+)", t).group(1))
+    chk = re.search(r"def sizeWrapByCompare : Bool := (\w+)", t).group(1) == "true"
+    return rz, chk
+
+
 def gen_pool():
     from extract import c_eval, src, prev_value, HEADER, GEN
     import re
     v = c_eval('#include "MHD_config.h"\n#include "memorypool.c"\n',
                [("align", "%zu", "(size_t) ALIGN_SIZE"), ("rz", "%zu", "(size_t) _MHD_RED_ZONE_SIZE"),
+                ("maxalign", "%zu", "(size_t) _Alignof (max_align_t)"),
                 ("szt", "%zu", "sizeof(size_t)"),
                 ("page", "%zu", "(MHD_init_mem_pools_ (), MHD_sys_page_size_)")])
+    # second build variant (MHD_ASAN_POISON_ACTIVE): its red-zone size, and a behaviour probe of the "size too
+    # close to SIZE_MAX" test (64-byte pool: are allocate / try_alloc / reallocate of SIZE_MAX refused?).  Compiled
+    # without the sanitizer: the ASAN_*_MEMORY_REGION macros of <sanitizer/asan_interface.h> are no-ops then.
+    pz = c_eval('#include "MHD_config.h"\n#include "memorypool.c"\nstatic size_t nd;\n',
+                [("rz", "%zu", "(size_t) _MHD_RED_ZONE_SIZE"),
+                 ("a", "%d", "(MHD_init_mem_pools_ (), NULL == MHD_pool_allocate (MHD_pool_create (64), (size_t) -1, false))"),
+                 ("t", "%d", "(NULL == MHD_pool_try_alloc (MHD_pool_create (64), (size_t) -1, &nd))"),
+                 ("r", "%d", "(NULL == MHD_pool_reallocate (MHD_pool_create (64), NULL, 0, (size_t) -1))")],
+                extra=POISON_PROBE)
+    chk = "true" if (pz["a"], pz["t"], pz["r"]) == ("1", "1", "1") else "false"
     m = re.search(r"max\s*<=\s*(\d+)\s*\*\s*1024", src("src/microhttpd/memorypool.c"))
     thr = str(int(m.group(1)) * 1024) if m else prev_value("Pool.lean", "mmapThreshold", "32768")
     out = HEADER % "src/microhttpd/memorypool.c" + "namespace Mhd.Gen.Pool\n" \
         + "def alignSize : Nat := %s\n" % v["align"] \
+        + "/-- `_Alignof (max_align_t)` of the configured build -/\n" \
+        + "def maxAlign : Nat := %s\n" % v["maxalign"] \
         + "def redZone : Nat := %s\n" % v["rz"] \
+        + "/-- `_MHD_RED_ZONE_SIZE` of the MHD_ASAN_POISON_ACTIVE build -/\n" \
+        + "def redZoneAsan : Nat := %s\n" % pz["rz"] \
+        + "/-- behaviour probe (red-zone build, 64-byte pool): allocate / try_alloc / reallocate refuse a size of SIZE_MAX,\n" \
+        + "    i.e. the wrap test on the rounded size is sound also with the red zone added (`asize < size`) -/\n" \
+        + "def sizeWrapByCompare : Bool := %s\n" % chk \
         + "def sizeofSizeT : Nat := %s\n" % v["szt"] \
         + "def pageSize : Nat := %s\n" % v["page"] \
         + "def mmapThreshold : Nat := %s\n" % thr \
@@ -34,14 +67,32 @@ class Oracle:
     blocks in bounds, aligned, pairwise disjoint; contents preserved; refusal
     leaves the arena unchanged.  Knows nothing about the model."""
 
-    def __init__(self):
+    def __init__(self, rz=0):
+        self.rz = rz        # red zone of the build under test (0: ordinary build)
         self.size = None
         self.live = []      # [off, len, front, expected(list of int|None)]
         self.pos = self.end = None
 
     def _st(self, words):
         d = dict(w.split("=") for w in words if "=" in w)
+        self.adr = d.get("adr")
         return int(d["pos"]), int(d["end"])
+
+    def _check_poison(self):
+        """red-zone build: exactly the bytes of the handed-out blocks are addressable, everything else in the
+        arena is poisoned — and every block is followed by a red zone that belongs to nobody"""
+        if self.adr is None:
+            return None
+        iv = sorted((b[0], b[0] + b[1]) for b in self.live if b[1])
+        for (a0, a1), (b0, b1) in zip(iv, iv[1:]):
+            if b0 < -(-a1 // 16) * 16 + self.rz:
+                return "no red zone between blocks [%d,%d) and [%d,%d)" % (a0, a1, b0, b1)
+        if iv and -(-iv[-1][1] // 16) * 16 > self.size:
+            return "last block without room for its rounding"
+        got = [] if self.adr == "-" else [tuple(int(x) for x in r.split("-")) for r in self.adr.split(",")]
+        if got != iv:
+            return "addressable ranges %s differ from the live blocks %s" % (self.adr, ",".join("%d-%d" % x for x in iv) or "-")
+        return None
 
     def _check_new(self, off, ln, skip=None):
         if off % 16 != 0:
@@ -116,7 +167,7 @@ class Oracle:
             self.pos, self.end = pos, end
             if not (pos <= end <= self.size):
                 err = err or "cursor out of order: pos=%d end=%d size=%d" % (pos, end, self.size)
-            return err
+            return err or self._check_poison()
         if k == "dealloc":
             del self.live[int(op[1])]
             self.pos, self.end = self._st(w[1:])
@@ -125,7 +176,7 @@ class Oracle:
             for b in self.live:   # nothing live may lie in the free gap
                 if b[1] and b[0] < self.end and b[0] + b[1] > self.pos:
                     return "dealloc returned live block [%d,+%d) to the pool" % (b[0], b[1])
-            return None
+            return self._check_poison()
         if k == "fill":
             b = self.live[int(op[1])]
             b[3] = pattern(int(op[2]), b[1])
@@ -140,7 +191,7 @@ class Oracle:
                     return "contents of block [%d,+%d) changed at byte %d" % (b[0], b[1], j)
             return None
         if k == "free?":
-            if int(w[0].split("=")[1]) != self.end - self.pos:
+            if int(w[0].split("=")[1]) != max(self.end - self.pos - self.rz, 0):
                 return "free-space query inconsistent"
             return None
         return None
@@ -272,17 +323,137 @@ def judge_oversize(meta, out, err):
     return None, None
 
 
+def gen_refusal_cases(ctx, n_random):
+    """composed engine (crinit/crfeed): requests that do not fit the arena, by stage and by what fills the buffer —
+    request line (standard / non-standard / no method end), one huge field line (also `Host:`), many small field
+    lines (the element allocation fails), target vs. field lines of comparable size, long non-standard method,
+    chunk-size line with / without extension, footers — on pools of 64 B … 8 KiB, whole / split / byte-wise"""
+    import importlib
+    C01 = importlib.import_module("props.C01")
+    rd = importlib.import_module("props._c01read")
+    rng = ctx.rng
+    cases = []
+
+    def add(ps, data, fam, lvl=None, pat=None):
+        how = rng.choice(["whole", "rand", "rand"] + (["bytes"] if len(data) <= 160 else []))
+        pieces = C01.splits_of(data, how, rng)
+        cases.append((rd.mk_case(ps, rng.choice([0, 16, 64, 256, 1500, 8, 1, 7]), rng.randint(-3, 3) if lvl is None else lvl, pieces, pat),
+                      {"fam": fam, "how": how, "ps": ps}))
+
+    for ps in (64, 128, 256, 512, 1024, 2048, 4096, 8192):
+        for rep in range(2 if ctx.tier == "quick" else 6):
+            big = ps + rng.choice([1, 17, ps // 2, ps])
+            half = max(ps // 2 + rng.choice([-3, -1, 0, 1, 5]), 8)
+            host = rng.choice([b"", b"Host: h\r\n", b"Host: " + b"h" * rng.choice([1, 30, 100]) + b"\r\n", b"hOsT:x\r\n"])
+            add(ps, b"GET /" + b"u" * big + b" HTTP/1.1\r\n" + host + b"\r\n", "line:std-target")
+            add(ps, rng.choice([b"BREW", b"M" * 20, b"get"]) + b" /" + b"u" * big + b" HTTP/1.1\r\n\r\n", "line:nonstd-target")
+            add(ps, b"G" * big, "line:no-method-end")
+            add(ps, b"GET /" + b"u" * (half // 3) + b" " + b"H" * big, "line:version")
+            add(ps, b"GET / HTTP/1.1\r\n" + host + b"X-Big: " + b"v" * big + b"\r\n\r\n", "hdr:one-huge")
+            add(ps, b"GET / HTTP/1.1\r\nHost: " + b"h" * big + b"\r\n\r\n", "hdr:huge-host-first")
+            add(ps, b"GET / HTTP/1.1\r\nA: b\r\nHost:" + b"h" * big + b"\r\n\r\n", "hdr:huge-host-later")
+            add(ps, b"GET / HTTP/1.1\r\n" + host + b"".join(b"X%d: %s\r\n" % (i, b"v" * rng.choice([0, 1, 8])) for i in range(ps // 6 + 4)) + b"\r\n", "hdr:many-small")
+            add(ps, b"GET /?" + b"&".join(b"a%d=1" % i for i in range(ps // 8 + 4)) + b" HTTP/1.1\r\n\r\n", "line:many-args")
+            u = rng.choice([half // 4, half // 2, half, 41, 300])
+            add(ps, b"GET /" + b"u" * u + b" HTTP/1.1\r\n" + host + b"X: " + b"v" * (ps - u + rng.choice([-40, 0, 40, ps])) + b"\r\n\r\n", "hdr:target-vs-fields")
+            add(ps, b"M" * rng.choice([17, 40, half // 2]) + b" /" + b"u" * rng.choice([1, 30, half // 4]) + b" HTTP/1.1\r\n" + host +
+                b"X: " + b"v" * big + b"\r\n\r\n", "hdr:long-method")
+            pre = b"POST /u HTTP/1.1\r\nHost: h\r\nTransfer-Encoding: chunked\r\n\r\n"
+            add(ps, pre + b"0" * big + b"1\r\nx\r\n0\r\n\r\n", "body:chunk-line", pat=rng.choice([None, [1], [0, 5]]))
+            add(ps, pre + b"1;" + b"e" * big + b"\r\nx\r\n0\r\n\r\n", "body:chunk-ext", pat=rng.choice([None, [1], [0, 5]]))
+            add(ps, pre + b"3\r\nabc\r\n0\r\nT: " + b"t" * big + b"\r\n\r\n", "foot:one-huge")
+            add(ps, pre + b"0\r\n" + b"".join(b"T%d: v\r\n" % i for i in range(ps // 6 + 4)) + b"\r\n", "foot:many-small")
+            if ps <= 512:   # (the model moves the window once per byte taken: keep the byte-wise bodies small)
+                add(ps, b"POST /u HTTP/1.1\r\nHost: h\r\nContent-Length: %d\r\n\r\n" % (2 * ps) + b"d" * (2 * ps), "body:identity", pat=rng.choice([[0], [0, 0, 1], [1]]))
+    # C01's own families (bodies, pipelines, mutations): mostly requests that fit — the refusal must then not appear
+    more = [(c, dict(m, fam="c01:" + m["fam"], ps=0)) for c, m in rd.gen_cases(ctx, n_random) if sum(len(l) for l in c) < 40000]
+    if ctx.tier == "quick" and len(more) > 160:
+        more = rng.sample(more, 160)
+    return cases + more
+
+
+def run_refusal(h_mem, driver, cases, failures):
+    """real get_request_line / get_req_headers / process_request_body / check_and_grow (+ the real
+    transmit_error_response: the status really put into the reply) vs `Mhd.ArenaBound.runT`: state class after every
+    chunk, and the refusal status when the request does not fit"""
+    import re
+    stats = {"chunks": 0}
+    kvs = lambda ln: dict(w.split("=", 1) for w in ln.split() if "=" in w)
+    for i in range(0, len(cases), 300):
+        batch = cases[i:i + 300]
+        lines = [l for c, _ in batch for l in c]
+        hout, hrc, herr = vlib.run_lines(h_mem, lines)
+        mout, mrc, merr = vlib.run_lines(driver, lines)
+        if hrc != 0:
+            pos, k = len(hout), 0
+            for c, meta in batch:
+                if k + len(c) > pos:
+                    failures.append(vlib.Failure("sanitizer", "refusal: harness aborted (rc=%d)" % hrc, herr[-1500:], c, "mem"))
+                    break
+                k += len(c)
+            continue
+        k = 0
+        for c, meta in batch:
+            last = None
+            for j, l in enumerate(c):
+                h = kvs(hout[k + j]) if k + j < len(hout) else {}
+                m = kvs(mout[k + j]) if k + j < len(mout) else {}
+                stats["chunks"] += 1
+                bad = None
+                if m.get("ph") in ("fault", "refused", None) or m.get("code") == "ns?":
+                    failures.append(vlib.Failure("model", "refusal: model " + str(m.get("ph")) + " " + str(m.get("code")), mout[k + j][:200] if k + j < len(mout) else "", c[:j + 1], "mem"))
+                    break
+                if h.get("ph") != m.get("ph"):
+                    bad = "state class: code %s model %s" % (h.get("ph"), m.get("ph"))
+                elif h.get("ph") == "err":
+                    hc, mc, why = h.get("code"), m.get("code"), m.get("why")
+                    if why == "nospace" and hc not in ("413", "414", "431", "501", "0"):
+                        failures.append(vlib.Failure("oracle", "refusal: a request that does not fit answered " + str(hc), hout[k + j] + " | " + json.dumps(meta), c[:j + 1], "mem"))
+                        break
+                    if hc == mc:
+                        key = "refused:%s:%s" % (why, hc)
+                    elif hc == "0":
+                        key = "refused:%s:reply-not-built(closed)" % why   # no room for the error reply in a tiny pool
+                    else:
+                        bad = "refusal status: code %s model %s (%s)" % (hc, mc, why)
+                        key = None
+                    if key and last != "err":
+                        stats[key] = stats.get(key, 0) + 1
+                        if why == "nospace":
+                            fk = "nospace:%s->%s" % (meta["fam"], hc)
+                            stats[fk] = stats.get(fk, 0) + 1
+                if bad:
+                    failures.append(vlib.Failure("diff", "refusal: model/code differ: " + re.sub(r"\d+", "N", bad), bad + " | " + json.dumps(meta), c[:j + 1], "mem"))
+                    break
+                last = h.get("ph")
+            k += len(c)
+    return stats
+
+
 class Spec:
     props_module = "Mhd.Props.C08"
     lean_targets = ["Mhd.Props.C08", "drv_pool", "drv_mem"]
     required_theorems = ["Mhd.C08.step_wf", "Mhd.C08.run_wf", "Mhd.C08.block_in_bounds_disjoint",
                          "Mhd.C08.refused_unchanged", "Mhd.C08.others_untouched",
-                         "Mhd.C08.realloc_preserves", "Mhd.C08.reset_keeps",
-                         "Mhd.C08.no_space_status_is_too_large", "Mhd.C08.no_space_501_only_for_nonstandard_method", "Mhd.C08.no_space_codes"]
+                         "Mhd.C08.realloc_preserves", "Mhd.C08.reset_keeps", "Mhd.C08.reset_zeroes_rest",
+                         "Mhd.C08.realloc_move_no_overlap", "Mhd.C08.alignment_covers_max_align",
+                         "Mhd.C08.no_space_status_is_too_large", "Mhd.C08.no_space_501_only_for_nonstandard_method", "Mhd.C08.no_space_codes",
+                         "Mhd.C08.no_space_status_by_what_fills", "Mhd.C08.no_space_413_iff", "Mhd.C08.arena_hard_bound", "Mhd.C08.refusal_by_stage",
+                         "Mhd.C08.rz_step_wf", "Mhd.C08.rz_run_wf", "Mhd.C08.rz_wf_weak", "Mhd.C08.rz_step_no_fault",
+                         "Mhd.C08.rz_block_in_bounds_disjoint", "Mhd.C08.rz_refused_unchanged", "Mhd.C08.rz_others_untouched",
+                         "Mhd.C08.rz_realloc_preserves", "Mhd.C08.rz_reset_keeps", "Mhd.C08.rz_alloc_red_zone", "Mhd.C08.rz_live_red_zone",
+                         "Mhd.C08.rz_agrees_with_ordinary_model", "Mhd.C08.rz_code_variants", "Mhd.C08.rz_wrap_witness"]
     trusted_base = ["Lean 4 kernel", "axioms: propext, Classical.choice, Quot.sound at most (audited per theorem)",
                     "hand-written model lean/Mhd/Model/Pool.lean tied to memorypool.c by this run's correspondence",
+                    "hand-written model lean/Mhd/Model/PoolRz.lean (both build variants, red zone as parameter, user-poison map) tied to both "
+                    "white-box builds of harness/h_pool.c (ordinary; -DMHD_ASAN_POISON_ACTIVE) by this run's correspondence",
+                    "lean/Mhd/Model/NoSpaceConn.lean (observer over C01's Mhd.ConnRead: which refusal is decided) tied to the real parsers + "
+                    "check_and_grow + transmit_error_response by the crinit/crfeed lines of harness/h_mem.c",
                     "tools/extract.py (ALIGN_SIZE, red zone, page size regenerated)", "harness/h_pool.c, gcc, ASan/UBSan"]
-    assumptions = ["non-ASan-poison build of the pool (red zone 0), as configured",
+    assumptions = ["pool: both build variants (red zone 0 as configured; red zone ALIGN_SIZE = MHD_ASAN_POISON_ACTIVE); the red-zone variant's "
+                   "theorems need the wrap test on the rounded size to be sound (Var.Sound; regenerated probe sizeWrapByCompare)",
+                   "reset is asked for a block that fits the arena together with its red zone (callers: pool_size/2 or the read-ahead)",
+                   "arena_hard_bound: external-polling mode of check_and_grow_read_buffer_space (as Mhd.ConnRead); the reply is taken as sent",
                    "API used as documented: realloc/dealloc/reset are given live blocks with their current size",
                    "arena size < 2^62"]
 
@@ -299,26 +470,39 @@ class Spec:
         c01.build(ctx)                      # buffer-layer harness + pool-poisoning daemon build (shared with C01)
         self.h_mem, self.drv_mem, self.h_poison = c01.h_mem, c01.driver, c01.h_poison
         self.harness = vlib.cc("h_pool", [os.path.join(vlib.VERIF, "harness/h_pool.c")])
+        # the same white-box harness on the pool's second build variant (red zones + user poisoning)
+        self.harness_rz = vlib.cc("h_pool_rz", [os.path.join(vlib.VERIF, "harness/h_pool.c")], extra=POISON)
+        self.rz, self.chk = gen_values()
         self.driver = vlib.driver_path("drv_pool")
 
-    def run_batch(self, seqs, failures, stats):
-        lines = [" ".join(o) for s in seqs for o in s]
-        hout, hrc, herr = vlib.run_lines(self.harness, lines)
+    def run_batch(self, seqs, failures, stats, harness=None, model="model old", rz=0, tag="pool"):
+        """`harness`: which build of the white-box pool harness; `model`: which Lean model the driver runs
+        (first line of the batch, echoed by both sides); `rz`: red zone of that build (for the oracle)"""
+        harness = harness or self.harness
+        lines = [model] + [" ".join(o) for s in seqs for o in s]
+        hout, hrc, herr = vlib.run_lines(harness, lines)
         mout, mrc, merr = vlib.run_lines(self.driver, lines)
+        hout, mout = hout[1:], mout[1:]
         if hrc != 0:
-            # sanitizer abort / crash: bisect to the sequence
+            # sanitizer abort / crash: the output seen so far gives a lower bound for the position (stdout is block
+            # buffered and lost on abort); from there on run the sequences one by one until one aborts
             pos = len(hout)
             k = 0
             for si, s in enumerate(seqs):
                 if k + len(s) > pos:
-                    failures.append(vlib.Failure("sanitizer", "pool: harness aborted (rc=%d)" % hrc,
-                                                 herr[-1500:], [" ".join(o) for o in s], "pool"))
-                    break
+                    o1, rc1, e1 = vlib.run_lines(harness, [model] + [" ".join(o) for o in s])
+                    if rc1 != 0:
+                        failures.append(vlib.Failure("sanitizer", "%s: harness aborted (rc=%d)" % (tag, rc1),
+                                                     e1[-1500:], [model] + [" ".join(o) for o in s], "pool"))
+                        break
                 k += len(s)
+            else:
+                failures.append(vlib.Failure("sanitizer", "%s: harness aborted (rc=%d), not reproduced by a single sequence" % (tag, hrc),
+                                             herr[-1500:], lines[:50], "pool"))
             return
         k = 0
         for s in seqs:
-            orc = Oracle()
+            orc = Oracle(rz)
             bad = None
             for j, o in enumerate(s):
                 h = hout[k + j] if k + j < len(hout) else ""
@@ -332,7 +516,7 @@ class Spec:
                     bad = ("oracle", e, j)
                     break
                 if h != m:
-                    bad = ("diff", "op %s: code says '%s', model says '%s'" % (" ".join(o), h, m), j)
+                    bad = ("diff", "op %s: code says '%s', model says '%s'" % (" ".join(o), h[:300], m[:300]), j)
                     break
                 if h.startswith("blk"):
                     stats["blocks"] += 1
@@ -342,11 +526,12 @@ class Spec:
                     stats["badop"] += 1
             if bad:
                 kind, det, j = bad
-                sig = "pool: " + (det if kind == "oracle" else "model/code differ on " + s[j][0])
+                sig = tag + ": " + (det if kind == "oracle" else "model/code differ on " + s[j][0])
                 # shrink the signature: drop numbers so that different sizes map to one shape
                 import re
-                sig = re.sub(r"\d+", "N", sig)
-                failures.append(vlib.Failure(kind, sig, det, [" ".join(o) for o in s[:j + 1]], "pool"))
+                sig = re.sub(r"\d+", "N", sig)[:160]
+                if sum(1 for x in failures if x.signature == sig) < 3:   # a few inputs per shape are enough
+                    failures.append(vlib.Failure(kind, sig, det, [model] + [" ".join(o) for o in s[:j + 1]], "pool"))
             k += len(s)
 
     def explore(self, ctx, boost):
@@ -366,9 +551,17 @@ class Spec:
         rnd = [gen_random_seq(ctx.rng, big=(i % 50 == 0)) for i in range(nrand)]
         allseqs = seqs + exh + rnd
         B = 2000
+        stats_rz = {"blocks": 0, "refused": 0, "badop": 0}
+        stats_rz0 = {"blocks": 0, "refused": 0, "badop": 0}
+        model_rz = "model rz %d %d" % (self.rz, 1 if self.chk else 0)
         for i in range(0, len(allseqs), B):
             self.run_batch(allseqs[i:i + B], failures, stats)
-            if len(failures) > 20:
+            # the red-zone build against `Mhd.PoolRz` with its red zone (incl. the poison map after every operation)
+            self.run_batch(allseqs[i:i + B], failures, stats_rz, harness=self.harness_rz, model=model_rz, rz=self.rz, tag="pool-rz")
+            # the ordinary build against `Mhd.PoolRz` at red zone 0 (the two models of the ordinary build agree): every 4th batch
+            if (i // B) % 4 == 0:
+                self.run_batch(allseqs[i:i + B], failures, stats_rz0, model="model rz 0 %d" % (1 if self.chk else 0), tag="pool-rz0")
+            if len({x.signature for x in failures}) > 8:
                 break
         # daemon level: hard size bound
         import importlib
@@ -444,6 +637,10 @@ class Spec:
                 if h != m:
                     failures.append(vlib.Failure("diff", "nospace: model/code differ", "%s: code %s model %s" % (ln, h, m), [ln], "mem"))
                     break
+        # which refusal, by stage and by what fills the buffer: composed engine of C01's harness (real request
+        # parsers + check_and_grow + transmit_error_response) vs the traced composed model `Mhd.ArenaBound.runT`
+        rcases = gen_refusal_cases(ctx, (40 if ctx.tier == "quick" else 500) * (3 if boost else 1))
+        ref_stats = run_refusal(self.h_mem, self.driver, rcases, failures)
         distinct = len({json.dumps(s) for s in allseqs if len(s) > 2})
         cov = {"evaluations": len(allseqs), "distinct_nontrivial": distinct,
                "rule": "op sequences on the real pool and the Lean model; distinct = different scripts with >=2 ops; "
@@ -451,9 +648,11 @@ class Spec:
                        "random: sizes incl. 0 and near SIZE_MAX" % (exh_len, EXH_ALPHA),
                "samples": [[" ".join(o) for o in rnd[0]], [" ".join(o) for o in exh[len(exh) // 2]]],
                "exhaustive_sequences": len(exh), "exhaustive_alphabet": EXH_ALPHA, "random_sequences": len(rnd), "corpus": ncorp,
-               "outcomes": stats, "oversized_requests": len(ov), "oversized_outcomes": ov_stats, "buffer_layer": cov_mem,
-               "poisoned_pool_daemon_cases": len(pc), "no_space_status_cases": len(ns_lines), "no_space_status_outcomes": ns_dist, "exhaustive": False}
-        cov["evaluations"] += len(ov) + len(pc) + cov_mem.get("evaluations", 0)
+               "outcomes": stats, "outcomes_redzone_build": stats_rz, "outcomes_redzone_model_at_0": stats_rz0,
+               "redzone_build": {"red_zone": self.rz, "size_wrap_by_compare": self.chk}, "oversized_requests": len(ov), "oversized_outcomes": ov_stats, "buffer_layer": cov_mem,
+               "poisoned_pool_daemon_cases": len(pc), "no_space_status_cases": len(ns_lines), "no_space_status_outcomes": ns_dist,
+               "refusal_cases": len(rcases), "refusal_outcomes": ref_stats, "exhaustive": False}
+        cov["evaluations"] += len(ov) + len(pc) + cov_mem.get("evaluations", 0) + len(rcases)
         return failures, cov
 
 
@@ -461,7 +660,11 @@ def replay(ctx, path):
     r = json.load(open(path))
     sp = Spec(); sp.gen(ctx); vlib.lake_build(sp.lean_targets); sp.build(ctx)
     fl, st = [], {"blocks": 0, "refused": 0, "badop": 0}
-    sp.run_batch([[l.split() for l in r["input"]]], fl, st)
+    inp = list(r["input"])
+    model = inp.pop(0) if inp and inp[0].startswith("model") else "model old"
+    rzb = model.startswith("model rz") and model.split()[2] != "0"
+    sp.run_batch([[l.split() for l in inp]], fl, st, harness=sp.harness_rz if rzb else sp.harness, model=model,
+                 rz=sp.rz if rzb else 0, tag="pool-rz" if rzb else "pool")
     for f in fl:
         print(f.kind, f.signature, f.detail)
     return 1 if fl else 0
